@@ -422,6 +422,22 @@ where
 {
     // ---------------- private methods ---------------------
 
+    /// Consume the trailing bytes of a value
+    /// whose length is not a multiple of the size of its elements,
+    /// so that exactly `len` bytes are taken from the source.
+    fn skip_value_remainder(&mut self, len: usize, elem_size: usize) -> Result<()> {
+        let rem = len % elem_size;
+        if rem != 0 {
+            let mut buf = [0u8; 8];
+            self.from
+                .read_exact(&mut buf[..rem])
+                .context(ReadValueDataSnafu {
+                    position: self.position,
+                })?;
+        }
+        Ok(())
+    }
+
     fn require_known_length(&self, header: &DataElementHeader) -> Result<usize> {
         header
             .length()
@@ -447,8 +463,10 @@ where
                     })
             })
             .collect();
+        let parts = parts?;
+        self.skip_value_remainder(len, 4)?;
         self.position += len as u64;
-        Ok(PrimitiveValue::Tags(parts?))
+        Ok(PrimitiveValue::Tags(parts))
     }
 
     fn read_value_ob(&mut self, header: &DataElementHeader) -> Result<PrimitiveValue> {
@@ -539,6 +557,7 @@ where
                 position: self.position,
             })?;
 
+        self.skip_value_remainder(len, 2)?;
         self.position += len as u64;
         Ok(PrimitiveValue::I16(vec))
     }
@@ -553,6 +572,7 @@ where
             .context(ReadValueDataSnafu {
                 position: self.position,
             })?;
+        self.skip_value_remainder(len, 4)?;
         self.position += len as u64;
         Ok(PrimitiveValue::F32(vec))
     }
@@ -746,6 +766,7 @@ where
             .context(ReadValueDataSnafu {
                 position: self.position,
             })?;
+        self.skip_value_remainder(len, 8)?;
         self.position += len as u64;
         Ok(PrimitiveValue::F64(vec))
     }
@@ -761,6 +782,7 @@ where
             .context(ReadValueDataSnafu {
                 position: self.position,
             })?;
+        self.skip_value_remainder(len, 4)?;
         self.position += len as u64;
         Ok(PrimitiveValue::U32(vec))
     }
@@ -790,6 +812,7 @@ where
                 position: self.position,
             })?;
 
+        self.skip_value_remainder(len, 2)?;
         self.position += len as u64;
 
         if header.tag == Tag(0x0028, 0x0103) {
@@ -811,6 +834,7 @@ where
             .context(ReadValueDataSnafu {
                 position: self.position,
             })?;
+        self.skip_value_remainder(len, 8)?;
         self.position += len as u64;
         Ok(PrimitiveValue::U64(vec))
     }
@@ -826,6 +850,7 @@ where
             .context(ReadValueDataSnafu {
                 position: self.position,
             })?;
+        self.skip_value_remainder(len, 4)?;
         self.position += len as u64;
         Ok(PrimitiveValue::I32(vec))
     }
@@ -841,6 +866,7 @@ where
             .context(ReadValueDataSnafu {
                 position: self.position,
             })?;
+        self.skip_value_remainder(len, 8)?;
         self.position += len as u64;
         Ok(PrimitiveValue::I64(vec))
     }
@@ -1088,7 +1114,13 @@ where
     }
 
     fn read_u32_to_vec(&mut self, length: u32, vec: &mut Vec<u32>) -> Result<()> {
-        self.read_u32((length >> 2) as usize, vec)
+        self.read_u32((length >> 2) as usize, vec)?;
+        // consume the bytes which do not make up a full value,
+        // so that exactly `length` bytes are read
+        let rem = (length & 3) as usize;
+        self.skip_value_remainder(rem, 4)?;
+        self.position += rem as u64;
+        Ok(())
     }
 
     fn read_to<W>(&mut self, length: u32, mut out: W) -> Result<()>
